@@ -1,3 +1,88 @@
-import NxModel.Bytes
-/-! driver stub for C10 (replaced when the property's model lands) -/
-def main : IO Unit := IO.println "stub C10"
+import NxModel.Nex.RmcClient
+import NxModel.DriverUtil
+/-! line-protocol driver for the RMC client call-matching model (stateful; one model object)
+  new <nextId>       -> ok                      fresh client whose `call_id` counter is <nextId>
+  call <0|1>         -> outs                    `request(..., noresponse=<1>)` up to the send
+  recv <hex>         -> outs | crash <Err>      one datagram through `RMCMessage.parse` + the loop body
+  eof | cleanup      -> outs
+  wake <t>           -> outs
+  dump               -> state next=.. tasks=.. closed=.. requests=[..] responses=[..] frames=[t:id:ready ..]
+  outs = `;`-joined: sent t id | done t body <hex> | done t rmc <code> | done t closed | done t none |
+         done t keyerror | set t | warn id | closing t,t,.. | notready t | notask t   (`-` when empty)
+  A trailing ` SPECDIFF` is appended when the specification machine (run in lock step) emitted
+  different observable outputs; ` H-IDS-BROKEN` once the distinct-live-ids hypothesis failed. -/
+open Nx Nx.Rmc Nx.RmcClient
+
+def showOutcome : Outcome → String
+  | .body b => "body " ++ hexOut b
+  | .rmcError c => s!"rmc {c}"
+  | .closed => "closed"
+  | .none => "none"
+  | .keyError => "keyerror"
+
+def insertSorted (x : Nat) : List Nat → List Nat
+  | [] => [x]
+  | y :: r => if x ≤ y then x :: y :: r else y :: insertSorted x r
+def sortNat (l : List Nat) : List Nat := l.foldr insertSorted []
+
+def joinNat (l : List Nat) : String := ",".intercalate ((sortNat l).map toString)
+
+def showOut : Out → String
+  | .sent t id => s!"sent {t} {id}"
+  | .done t o => s!"done {t} " ++ showOutcome o
+  | .set t => s!"set {t}"
+  | .warnInvalidCallId id => s!"warn {id}"
+  | .closing ts => "closing " ++ (if ts.isEmpty then "-" else joinNat ts)
+  | .notReady t => s!"notready {t}"
+  | .noSuchTask t => s!"notask {t}"
+
+def showOuts (l : List Out) : String := if l.isEmpty then "-" else ";".intercalate (l.map showOut)
+
+structure D where
+  s : State
+  a : CallSpec
+  hids : Bool
+
+def dump (s : State) : String :=
+  let fr := (sortNat (s.frames.map (·.1))).map fun t =>
+    match dlookup t s.frames with
+    | some id => s!"{t}:{id}:{if t ∈ s.fired then 1 else 0}"
+    | none => "?"
+  s!"state next={s.nextId} tasks={s.nextTask} closed={if s.closed then 1 else 0} requests=[{joinNat (s.requests.map (·.1))}] responses=[{joinNat (s.responses.map (·.1))}] frames=[{" ".intercalate fr}]"
+
+def apply (d : D) (op : Op) : D × String :=
+  let ok := d.hids && distinctLive d.s [op]
+  let (s', o) := step d.s op
+  let (a', oa) := CallSpec.step d.a op
+  let diff := o.filter Out.observable != oa
+  ({ s := s', a := a', hids := ok },
+   showOuts o ++ (if diff then " SPECDIFF" else "") ++ (if !ok then " H-IDS-BROKEN" else ""))
+
+def stepLine (d : D) (line : String) : D × String :=
+  match line.splitOn " " with
+  | ["new", n] =>
+    match n.toNat? with
+    | some n => ({ s := { init with nextId := n }, a := { CallSpec.init with nextId := n }, hids := true }, "ok")
+    | none => (d, "bad-op")
+  | ["call", b] =>
+    if b = "0" then apply d (.call false) else if b = "1" then apply d (.call true) else (d, "bad-op")
+  | ["recv", h] =>
+    match fromHex h with
+    | some data =>
+      match decode data with
+      | .error e => (d, "crash " ++ e.name)
+      | .ok _ =>
+        match opOfData data with
+        | some op => apply d op
+        | none => (d, "bad-op")
+    | none => (d, "bad-op")
+  | ["eof"] => apply d .eof
+  | ["cleanup"] => apply d .cleanup
+  | ["wake", t] =>
+    match t.toNat? with
+    | some t => apply d (.wake t)
+    | none => (d, "bad-op")
+  | ["dump"] => (d, dump d.s)
+  | _ => (d, "bad-op")
+
+def main : IO Unit := runState { s := init, a := CallSpec.init, hids := true : D } stepLine
